@@ -14,6 +14,7 @@ Everything is about Model/C16 instantiated with ℝ; helper lemmas are in Proofs
 import CfVerif.Proofs.C16Unique
 import CfVerif.Proofs.C16Scale
 import CfVerif.Proofs.C16Heap
+import CfVerif.Proofs.C16Flight
 namespace CfVerif.C16
 open CfVerif
 
@@ -46,6 +47,16 @@ theorem gen_align_flow : Gen.C16.alignFlow = ["raw_transformation = cls._find_tr
 /-- the aligner writes to nothing but its own fresh `result` dict and calls no method on its arguments except dict views -/
 theorem gen_aligner_pure : Gen.C16.alignerStores = ["result[bs_id]"] ∧
     Gen.C16.alignerCallsOnInputs = ["bs_poses.items", "bs_poses.values"] := by decide
+/-- **no shared state.**  Neither class has class-level statements other than its methods, neither module has module-level
+state, and no method declares `global`/`nonlocal`, stores into `cls.…`, into an argument object or any non-local, reads a
+`cls.` attribute that is not a method, or reads a free name other than builtins and the module's imports/classes: all data
+flows through arguments, locals and return values.  The reference points reach the residual through `least_squares(args=…)`
+(`gen_find_transformation`) into the parameters of `_calc_residual`. -/
+theorem gen_no_shared_state : Gen.C16.alignerClassState = [] ∧ Gen.C16.alignerModuleState = [] ∧
+    Gen.C16.alignerSharedStateUses = [] ∧ Gen.C16.scalerClassState = [] ∧ Gen.C16.scalerModuleState = [] ∧
+    Gen.C16.scalerSharedStateUses = [] ∧
+    Gen.C16.calcResidualParams = ["cls", "params", "origin", "x_axis", "xy_plane"] ∧
+    Gen.C16.findTransformationParams = ["cls", "origin", "x_axis", "xy_plane"] := by decide
 theorem gen_pose : Gen.C16.poseInit = ["self._R_matrix = np.array(R_matrix)", "self._t_vec = np.array(t_vec)"] ∧
     Gen.C16.poseFromRotVec = ["Pose(Rotation.from_rotvec(R_vec).as_matrix(), t_vec)"] ∧
     Gen.C16.poseAccessors = ["self._R_matrix", "self._t_vec"] ∧
@@ -137,6 +148,28 @@ theorem align_preserves_relative_orientation (lsq : Lsq ℝ) (origin : Vec3 ℝ)
     relOrientation (T.rotateTranslatePose p) (T.rotateTranslatePose q) = relOrientation p q := by
   have hp := (align_applies_one_rigid_map lsq origin xAxis xyPlane bsPoses result T h).1
   exact relOrientation_preserved hp.1 p q
+
+/-! ## Several calls in flight do not interfere -/
+
+/-- **align calls do not communicate.**  Put any number of `align` calls in flight (each with its own arguments), let ANY
+optimiser strategy drive them, and interleave their residual evaluations by ANY schedule, next to ANY shared state.  Then
+the shared state is unchanged, and every call whose optimiser is done returns exactly what `align` returns for its own
+arguments when run alone — so every alignment theorem of this file holds for each of the overlapping calls. -/
+theorem align_calls_do_not_interfere (o : Optimiser ℝ) (G : Type) (g : G) (fuel : Nat)
+    (calls : List (Vec3 ℝ × List (Vec3 ℝ) × List (Vec3 ℝ) × List (Nat × Pose ℝ))) (schedule : List Nat) :
+    let w0 : World ℝ o G := ⟨g, calls.map fun c => Flight.start o fuel c.1 c.2.1 c.2.2.1 c.2.2.2⟩
+    (w0.run schedule).shared = g ∧ (w0.run schedule).flights.length = calls.length ∧
+    ∀ (i : Nat) (c : Vec3 ℝ × List (Vec3 ℝ) × List (Vec3 ℝ) × List (Nat × Pose ℝ)), calls[i]? = some c →
+      ∃ fl : Flight ℝ o, (w0.run schedule).flights[i]? = some fl ∧
+        (fl.done = true → fl.result = align (o.lsq fuel) c.1 c.2.1 c.2.2.1 c.2.2.2) := by
+  intro w0
+  obtain ⟨hs, hl, hf⟩ := World.run_inv schedule w0
+  refine ⟨hs, by rw [hl]; simp [w0], ?_⟩
+  intro i c hc
+  have h0 : w0.flights[i]? = some (Flight.start o fuel c.1 c.2.1 c.2.2.1 c.2.2.2) := by
+    simp [w0, List.getElem?_map, hc]
+  obtain ⟨fl, hfl, hfin, _⟩ := hf i _ h0
+  exact ⟨fl, hfl, fun hd => by rw [Flight.result_of_done fl hd, hfin, Flight.finish_start]⟩
 
 /-! ## Exactness, given a zero residual -/
 
